@@ -1106,159 +1106,163 @@ theorem rootSpans_isOk (s : Str) : (rootSpans s).isOk = Balanced s := by
   rw [Balanced, ← this, rootSpans]
   cases rootSpansAux s [] [] [] <;> rfl
 
-/-! ## `unquote_string` -/
+/-! ## `unquote_string` (single left-to-right pass `unescapeJs`) -/
+
+theorem unescapeJs_bs (c : Char) (rest : Str) :
+    unescapeJs ('\\' :: c :: rest) =
+      if c == '\\' || c == '\'' || c == '"' then c :: unescapeJs rest
+      else if c == 'n' then LF :: unescapeJs rest
+      else if c == 'r' then CR :: unescapeJs rest
+      else if c == 't' then '\t' :: unescapeJs rest
+      else '\\' :: unescapeJs (c :: rest) := by
+  rw [unescapeJs]
+
+theorem unescapeJs_other (c : Char) (rest : Str) (h : c ≠ '\\') : unescapeJs (c :: rest) = c :: unescapeJs rest := by
+  rw [unescapeJs]
+  intro c' rest' hh
+  exact absurd hh h
+
+theorem unescapeJs_lone : unescapeJs ['\\'] = ['\\'] := by decide
+
+
+/-- one `String.prototype.replace(/x/g, rep)` pass for a single character `x` -/
+def escPass (x : Char) (rep : Str) (s : Str) : Str := s.flatMap (fun c => if c == x then rep else [c])
 
 /-- `name` with every backslash doubled -/
-def dblBackslash (name : Str) : Str := name.flatMap (fun c => if c == '\\' then ['\\', '\\'] else [c])
+def dblBackslash (name : Str) : Str := escPass '\\' ['\\', '\\'] name
 /-- every `q` preceded by a backslash -/
-def escQuote (q : Char) (s : Str) : Str := s.flatMap (fun c => if c == q then ['\\', q] else [c])
+def escQuote (q : Char) (s : Str) : Str := escPass q ['\\', q] s
 /-- `js_string_escape_column_name` without the control-character escapes -/
 def escName (q : Char) (name : Str) : Str := escQuote q (dblBackslash name)
 
-theorem escQuote_nil (q : Char) : escQuote q [] = [] := rfl
-theorem escQuote_cons (q c : Char) (s : Str) :
-    escQuote q (c :: s) = (if c == q then ['\\', q] else [c]) ++ escQuote q s := by
-  simp [escQuote]
-theorem dblBackslash_cons (c : Char) (s : Str) :
-    dblBackslash (c :: s) = (if c == '\\' then ['\\', '\\'] else [c]) ++ dblBackslash s := by
-  simp [dblBackslash]
+/-- `js_string_escape_column_name(column_name, quote_char)` of rbql.js, pass by pass in the order of the source:
+backslash doubled, LF → `\n`, CR → `\r`, TAB → `\t`, then the quote character → `\q` -/
+def jsEscapeColumnName (q : Char) (name : Str) : Str :=
+  escQuote q (escPass '\t' ['\\', 't'] (escPass '\r' ['\\', 'r'] (escPass '\n' ['\\', 'n'] (dblBackslash name))))
 
-theorem escQuote_head_ne (q : Char) (hq : q ≠ '\\') (s : Str) : (escQuote q s).head? ≠ some q := by
-  cases s with
-  | nil => simp [escQuote]
-  | cons c cs =>
-    rw [escQuote_cons]
-    by_cases h : c = q
-    · simp [h]; exact fun h' => hq h'.symm
+/-- a per-character encoder that the single pass decodes character by character is undone on whole texts -/
+theorem unescapeJs_flatMap (f : Char → Str) (hf : ∀ c rest, unescapeJs (f c ++ rest) = c :: unescapeJs rest) (name : Str) :
+    unescapeJs (name.flatMap f) = name := by
+  induction name with
+  | nil => rfl
+  | cons c cs ih => rw [List.flatMap_cons, hf, ih]
+
+theorem flatMap_congr' {α β} (f g : α → List β) (l : List α) (h : ∀ c ∈ l, f c = g c) : l.flatMap f = l.flatMap g := by
+  induction l with
+  | nil => rfl
+  | cons c cs ih => rw [List.flatMap_cons, List.flatMap_cons, h c (by simp), ih (fun x hx => h x (by simp [hx]))]
+
+/-- the escape of one character under `js_string_escape_column_name` -/
+def escChar (q c : Char) : Str :=
+  if c == '\\' then ['\\', '\\'] else if c == '\n' then ['\\', 'n'] else if c == '\r' then ['\\', 'r']
+  else if c == '\t' then ['\\', 't'] else if c == q then ['\\', q] else [c]
+
+theorem jsEscapeColumnName_eq (q : Char) (hq : q = '\'' ∨ q = '"') (name : Str) :
+    jsEscapeColumnName q name = name.flatMap (escChar q) := by
+  simp only [jsEscapeColumnName, escQuote, dblBackslash, escPass, List.flatMap_assoc]
+  apply flatMap_congr'
+  intro c _
+  unfold escChar
+  rcases hq with rfl | rfl
+  all_goals
+    by_cases h1 : c = '\\'
+    · subst h1; decide
+    · by_cases h2 : c = '\n'
+      · subst h2; decide
+      · by_cases h3 : c = '\r'
+        · subst h3; decide
+        · by_cases h4 : c = '\t'
+          · subst h4; decide
+          · simp [h1, h2, h3, h4]
+
+theorem unescapeJs_escChar (q : Char) (hq : q = '\'' ∨ q = '"') (c : Char) (rest : Str) :
+    unescapeJs (escChar q c ++ rest) = c :: unescapeJs rest := by
+  unfold escChar
+  by_cases h1 : c = '\\'
+  · subst h1; simp [unescapeJs_bs]
+  · by_cases h2 : c = '\n'
+    · subst h2; simp [unescapeJs_bs, LF]
+    · by_cases h3 : c = '\r'
+      · subst h3; simp [unescapeJs_bs, CR]
+      · by_cases h4 : c = '\t'
+        · subst h4; simp [unescapeJs_bs]
+        · by_cases h5 : c = q
+          · subst h5
+            rcases hq with rfl | rfl <;> simp [unescapeJs_bs]
+          · simp [h1, h2, h3, h4, h5, unescapeJs_other c rest h1]
+
+theorem unescapeJs_jsEscape (q : Char) (hq : q = '\'' ∨ q = '"') (name : Str) :
+    unescapeJs (jsEscapeColumnName q name) = name := by
+  rw [jsEscapeColumnName_eq q hq, unescapeJs_flatMap _ (unescapeJs_escChar q hq)]
+
+theorem escName_eq (q : Char) (name : Str) :
+    escName q name = name.flatMap (fun c => if c == '\\' then (if '\\' == q then ['\\', q, '\\', q] else ['\\', '\\'])
+      else if c == q then ['\\', q] else [c]) := by
+  simp only [escName, escQuote, dblBackslash, escPass, List.flatMap_assoc]
+  apply flatMap_congr'
+  intro c _
+  by_cases h1 : c = '\\'
+  · subst h1
+    by_cases h : '\\' = q
+    · subst h; simp
     · simp [h]
+  · simp [h1]
 
-theorem replaceAll_escQuote (q : Char) (hq : q ≠ '\\') (s : Str) (fuel : Nat)
-    (hf : (escQuote q s).length < fuel) : replaceAll ['\\', q] [q] fuel (escQuote q s) = s := by
-  induction s generalizing fuel with
-  | nil => cases fuel <;> simp [escQuote, replaceAll]
-  | cons c cs ih =>
-    rw [escQuote_cons] at hf ⊢
-    cases fuel with
-    | zero => simp at hf
-    | succ fuel =>
-      by_cases h : c = q
-      · subst h
-        simp only [beq_self_eq_true, if_true, List.cons_append, List.nil_append, List.length_cons] at hf ⊢
-        rw [replaceAll]
-        simp only [List.isPrefixOf, beq_self_eq_true, Bool.and_self, ne_eq, reduceCtorEq, not_false_eq_true, and_self, if_true,
-          List.length_cons, List.length_nil, List.drop_succ_cons, List.drop_zero, List.singleton_append]
-        rw [ih fuel (by omega)]
-      · have hcq : (c == q) = false := by simpa using h
-        simp only [hcq, Bool.false_eq_true, ↓reduceIte, List.cons_append, List.nil_append, List.length_cons] at hf ⊢
-        rw [replaceAll]
-        have hnp : ¬ (['\\', q].isPrefixOf (c :: escQuote q cs) = true ∧ ['\\', q] ≠ []) := by
-          intro ⟨hp, _⟩
-          have hh := escQuote_head_ne q hq cs
-          cases hcs : escQuote q cs with
-          | nil => simp [hcs, List.isPrefixOf] at hp
-          | cons d ds =>
-            simp [hcs, List.isPrefixOf] at hp hh
-            exact hh hp.2.symm
-        rw [if_neg hnp, ih fuel (by omega)]
+theorem unescapeJs_escName (q : Char) (hq : q = '\'' ∨ q = '"') (name : Str) : unescapeJs (escName q name) = name := by
+  rw [escName_eq]
+  apply unescapeJs_flatMap
+  intro c rest
+  have hqb : ('\\' == q) = false := by rcases hq with rfl | rfl <;> decide
+  by_cases h1 : c = '\\'
+  · subst h1; simp [hqb, unescapeJs_bs]
+  · by_cases h5 : c = q
+    · subst h5; rcases hq with rfl | rfl <;> simp [unescapeJs_bs]
+    · simp [h1, h5, unescapeJs_other c rest h1]
 
-theorem replaceAll_dblBackslash (s : Str) (fuel : Nat) (hf : (dblBackslash s).length < fuel) :
-    replaceAll ['\\', '\\'] ['\\'] fuel (dblBackslash s) = s := by
-  induction s generalizing fuel with
-  | nil => cases fuel <;> simp [dblBackslash, replaceAll]
-  | cons c cs ih =>
-    rw [dblBackslash_cons] at hf ⊢
-    cases fuel with
-    | zero => simp at hf
-    | succ fuel =>
-      by_cases h : c = '\\'
-      · subst h
-        simp only [beq_self_eq_true, if_true, List.cons_append, List.nil_append, List.length_cons] at hf ⊢
-        rw [replaceAll]
-        simp only [List.isPrefixOf, beq_self_eq_true, Bool.and_self, ne_eq, reduceCtorEq, not_false_eq_true, and_self, if_true,
-          List.length_cons, List.length_nil, List.drop_succ_cons, List.drop_zero, List.singleton_append]
-        rw [ih fuel (by omega)]
-      · have hcq : (c == '\\') = false := by simpa using h
-        simp only [hcq, Bool.false_eq_true, ↓reduceIte, List.cons_append, List.nil_append, List.length_cons] at hf ⊢
-        rw [replaceAll]
-        have hnp : ¬ (['\\', '\\'].isPrefixOf (c :: dblBackslash cs) = true ∧ ['\\', '\\'] ≠ []) := by
-          intro ⟨hp, _⟩
-          simp [List.isPrefixOf] at hp
-          exact h hp.1.symm
-        rw [if_neg hnp, ih fuel (by omega)]
-
-theorem escQuote_length_ge (q : Char) (s : Str) : s.length ≤ (escQuote q s).length := by
-  induction s with
-  | nil => simp
-  | cons c cs ih => rw [escQuote_cons]; split <;> simp <;> omega
-
-theorem unquoteString_single (e : Str) :
-    unquoteString ('\'' :: e ++ ['\'']) =
-      some (replaceAll ['\\', '\\'] ['\\'] (e.length + 1) (replaceAll ['\\', '\''] ['\''] (e.length + 1) e)) := by
-  have hlast : ('\'' :: e ++ ['\'']).getLast? = some '\'' := List.getLast?_concat
-  have hbody : (List.drop 1 ('\'' :: e ++ ['\''])).take (('\'' :: e ++ ['\'']).length - 2) = e := by simp
-  have hlen : ¬ ('\'' :: e ++ ['\'']).length < 2 := by simp
+/-- the quoted form is accepted and its body handed to the single pass -/
+theorem unquoteString_quoted (q : Char) (hq : q = '\'' ∨ q = '"') (e : Str) :
+    unquoteString (q :: e ++ [q]) = some (unescapeJs e) := by
+  have hlast : (q :: e ++ [q]).getLast? = some q := List.getLast?_concat
+  have hbody : (List.drop 1 (q :: e ++ [q])).take ((q :: e ++ [q]).length - 2) = e := by simp
+  have hlen : ¬ (q :: e ++ [q]).length < 2 := by simp
   unfold unquoteString
   rw [if_neg hlen]
   simp only [hbody, hlast]
-  simp
-
-theorem unquoteString_double (e : Str) :
-    unquoteString ('"' :: e ++ ['"']) =
-      some (replaceAll ['\\', '\\'] ['\\'] (e.length + 1) (replaceAll ['\\', '"'] ['"'] (e.length + 1) e)) := by
-  have hlast : ('"' :: e ++ ['"']).getLast? = some '"' := List.getLast?_concat
-  have hbody : (List.drop 1 ('"' :: e ++ ['"'])).take (('"' :: e ++ ['"']).length - 2) = e := by simp
-  have hlen : ¬ ('"' :: e ++ ['"']).length < 2 := by simp
-  unfold unquoteString
-  rw [if_neg hlen]
-  simp only [hbody, hlast]
-  simp
+  rcases hq with rfl | rfl <;> simp
 
 theorem unquoteString_escName (q : Char) (hq : q = '\'' ∨ q = '"') (name : Str) :
     unquoteString (q :: escName q name ++ [q]) = some name := by
-  have hqb : q ≠ '\\' := by rcases hq with h | h <;> subst h <;> decide
-  have h1 := replaceAll_escQuote q hqb (dblBackslash name) ((escName q name).length + 1) (by simp [escName])
-  have h2 := replaceAll_dblBackslash name ((escName q name).length + 1)
-    (by have := escQuote_length_ge q (dblBackslash name); simp [escName]; omega)
-  rcases hq with h | h <;> subst h
-  · rw [unquoteString_single]; simp only [escName] at h1 h2 ⊢; rw [h1, h2]
-  · rw [unquoteString_double]; simp only [escName] at h1 h2 ⊢; rw [h1, h2]
+  rw [unquoteString_quoted q hq, unescapeJs_escName q hq]
 
-/-- `js_string_escape_column_name` in full: backslashes doubled, then LF / CR / TAB written as escapes, then the quote escaped -/
-def jsEscapeColumnName (q : Char) (name : Str) : Str :=
-  escQuote q ((dblBackslash name).flatMap (fun c =>
-    if c == '\n' then ['\\', 'n'] else if c == '\r' then ['\\', 'r'] else if c == '\t' then ['\\', 't'] else [c]))
+theorem unquoteString_jsEscape (q : Char) (hq : q = '\'' ∨ q = '"') (name : Str) :
+    unquoteString (q :: jsEscapeColumnName q name ++ [q]) = some name := by
+  rw [unquoteString_quoted q hq, unescapeJs_jsEscape q hq]
 
-def noCtl (name : Str) : Bool := name.all (fun c => c != '\n' && c != '\r' && c != '\t')
+/-- a backslash in front of any other character is kept -/
+theorem unescapeJs_bs_kept (c : Char) (rest : Str)
+    (hc : c ≠ '\\' ∧ c ≠ '\'' ∧ c ≠ '"' ∧ c ≠ 'n' ∧ c ≠ 'r' ∧ c ≠ 't') :
+    unescapeJs ('\\' :: c :: rest) = '\\' :: c :: unescapeJs rest := by
+  rw [unescapeJs_bs, unescapeJs_other c rest hc.1]
+  simp [hc.1, hc.2.1, hc.2.2.1, hc.2.2.2.1, hc.2.2.2.2.1, hc.2.2.2.2.2]
 
-theorem flatMap_eq_self {α} (f : α → List α) (l : List α) (h : ∀ c ∈ l, f c = [c]) : l.flatMap f = l := by
-  induction l with
+/-- a text without backslashes is unchanged -/
+theorem unescapeJs_no_bs (s : Str) (h : '\\' ∉ s) : unescapeJs s = s := by
+  induction s with
   | nil => rfl
   | cons c cs ih =>
-    rw [List.flatMap_cons, h c (by simp), ih (fun x hx => h x (by simp [hx]))]; rfl
+    simp only [List.mem_cons, not_or] at h
+    rw [unescapeJs_other c cs (fun hc => h.1 hc.symm), ih h.2]
 
-theorem mem_dblBackslash {c : Char} {s : Str} (h : c ∈ dblBackslash s) : c ∈ s := by
-  induction s with
-  | nil => simp [dblBackslash] at h
-  | cons d ds ih =>
-    rw [dblBackslash_cons] at h
-    by_cases hd : d = '\\'
-    · subst hd; simp at h; rcases h with h | h
-      · simp [h]
-      · simp [ih h]
-    · simp [hd] at h; rcases h with h | h
-      · simp [h]
-      · simp [ih h]
+def isQuoted (s : Str) : Bool :=
+  (s.head? == some '\'' && s.getLast? == some '\'') || (s.head? == some '"' && s.getLast? == some '"')
 
-theorem jsEscapeColumnName_noCtl (q : Char) (name : Str) (h : noCtl name = true) :
-    jsEscapeColumnName q name = escName q name := by
-  unfold jsEscapeColumnName escName
-  rw [flatMap_eq_self]
-  intro c hc
-  have hm := mem_dblBackslash hc
-  simp only [noCtl, List.all_eq_true] at h
-  have := h c hm
-  simp at this
-  simp [this]
+theorem unquoteString_none_iff (s : Str) : unquoteString s = none ↔ (s.length < 2 ∨ isQuoted s = false) := by
+  unfold unquoteString isQuoted
+  by_cases hl : s.length < 2
+  · simp [hl]
+  · cases hb : ((s.head? == some '\'' && s.getLast? == some '\'') || (s.head? == some '"' && s.getLast? == some '"'))
+    · simp [hl]
+    · simp [hl]
 
 /-! ## composition with the header theorems -/
 
